@@ -15,7 +15,7 @@ RULE = ("states are PAIRS (original, derived) rebuilt together so aliasing is pr
         "either side; invariant after every transition: the other side's events through both views are unchanged and its "
         "views agree; dedupe key = raw representation of every stored view + aliasing pattern of message objects. "
         "non-trivial = the operation changes the side it is applied to")
-SCALE = ('a 30-note five-bar content through four routes, a 70-note content (>200 relative messages) through split explored to depth 1, a dense bar whose only time signature sits in its middle through Bar.copy')
+SCALE = ('a 30-note five-bar content through four routes, a 70-note content (>200 relative messages) through split explored to depth 1, a dense bar whose only time signature sits in its middle through Bar.copy; cross-side operations (one side re-channelled and merged with the other, a copy of the other concatenated)')
 ASSUMPTIONS = ["Bar.to_sequence is not a derivation route of the statement and is not explored"]
 REQUIRED_FLAGS = ["op_on_derived", "op_on_original", "route:seq_copy", "route:split", "route:bars_q", "route:bars_nq",
                   "route:bar_copy", "route:track_copy", "route:comp_copy", "copy_equality_checked", "operated_side_changed"]
